@@ -39,7 +39,10 @@ CheckFit(c) ==
               excess == RSub(chi, ChiSq(c.exprs, c.points, gls, y, W, pri)) IN
           /\ Verdict(id, "linear model: chi^2 at the returned parameters exceeds the GLS minimum", RLe(excess, RMul(tol, RAdd("1", chi))))
           /\ (c.method = "Levenberg-Marquardt") =>
-               Verdict(id, "linear model: parameters = (A^T W A)^-1 A^T W y", RCloseSeq(p, gls, "1/1000000", RMul("1/10000000", RAdd("1", RMaxAbsSeq(gls)))))
+               \* in units of each parameter's own error sqrt((A^T W A + P)^-1_aa) = sqrt(2 H^-1_aa): scale-free, however ill-conditioned the basis
+               LET Hinv == TLCEval(MatInverse(H)) IN
+               Verdict(id, "linear model: parameters = (A^T W A)^-1 A^T W y",
+                       \A a \in 1..n : RLe(RAbs(RSub(p[a], gls[a])), RMul("1/10000", RSqrt(RMul("2", RAbs(Hinv[a][a]))))))
      ELSE TRUE
   /\ \A a \in 1..n :
        CheckReal(id \o ".p" \o StrFromInt(a), [c EXCEPT !.mode = IF c.numgrad THEN "fitnum" ELSE "fit"],
